@@ -113,3 +113,15 @@ Print Assumptions C11_full_VbkMerklePath.
 Theorem C11_full_PublicationData : c11_full c_pubdata.
 Proof. exact pubdata_full. Qed.
 Print Assumptions C11_full_PublicationData.
+Theorem C11_full_AltBlock : c11_full c_altblock.
+Proof. exact altblock_full. Qed.
+Print Assumptions C11_full_AltBlock.
+Theorem C11_full_KeystoneContainer : c11_full c_keystones.
+Proof. exact keystones_full. Qed.
+Print Assumptions C11_full_KeystoneContainer.
+Theorem C11_full_ContextInfoContainer : c11_full c_ctxinfo.
+Proof. exact ctxinfo_full. Qed.
+Print Assumptions C11_full_ContextInfoContainer.
+Theorem C11_full_AuthenticatedContextInfoContainer : c11_full c_authctx.
+Proof. exact authctx_full. Qed.
+Print Assumptions C11_full_AuthenticatedContextInfoContainer.
